@@ -1146,8 +1146,9 @@ func (ctx *internalContext) Watch(options WatchOptions) error {
 func (ctx *internalContext) Cancel() {
 	ctx.mutex.Lock()
 
-	// Ignore disposed contexts
-	if ctx.didDispose {
+	// Ignore disposed contexts (but if "Dispose" is still waiting for a build
+	// to finish, that build must still be canceled and waited for here)
+	if ctx.didDispose && ctx.activeBuild == nil {
 		ctx.mutex.Unlock()
 		return
 	}
